@@ -18,8 +18,8 @@ MOD, GEN, JUDGE, JCFG = "MultipolygonMC", "MultipolygonGen", "MultipolygonJudge"
 FAM_QUICK = [
     ("one",      "S_One",      3, '{"all"}',              1),
     ("hole33",   "S_Hole33",   2, '{"of", "alt"}',        1),
-    ("two33h1",  "S_Two33H1",  1, '{"all"}',              1),
-    ("two33",    "S_Two33",    2, '{"all"}',              3),
+    ("two33h1",  "S_Two33H1",  1, '{"all"}',              2),
+    ("two33",    "S_Two33",    2, '{"all"}',              4),
 ]
 FAM_THOROUGH = [
     ("one",      "S_One",      4, '{"all"}',              1),
@@ -174,6 +174,8 @@ def run(ctx):
 
     mc.result()
     pool.shutdown()
+    # every record is one real execution whose observable outcome was compared with the Model's run by TLC
+    ctx.traces = len(recs) - len(div_first)
     ctx.extra["families"] = famstat
     ctx.exhaustive = all(v["enumerated"] == v["executed"] for k, v in famstat.items() if k != "sim")
     ctx.rule = ("cases = completed member lists of the generating machine of Multipolygon.tla (every cut into 1..MaxPieces ways, "
